@@ -715,16 +715,19 @@ pub fn compute_offer_amount(
     let one_minus_commission = Decimal256::one() - fees;
     let inv_one_minus_commission = Decimal256::one() / one_minus_commission;
 
+    // the amount that has to leave the pool before fees, floor(ask_amount / (1 - fees)), computed
+    // exactly: multiplying by the inverse rounded to 18 decimals falls short of it on large amounts,
+    // and the quoted offer with it
+    let ask_amount_before_fees: Uint256 = ask_amount
+        .checked_multiply_ratio(Decimal256::one().atomics(), one_minus_commission.atomics())
+        .map_err(|e| StdError::generic_err(e.to_string()))?;
+
     let cp: Uint256 = offer_asset_in_pool * ask_asset_in_pool;
     let offer_amount: Uint256 = Uint256::one()
         .multiply_ratio(
             cp,
             ask_asset_in_pool
-                .checked_sub(
-                    Decimal256::from_ratio(ask_amount, Uint256::one())
-                        .checked_mul(inv_one_minus_commission)?
-                        .to_uint_floor(),
-                )?
+                .checked_sub(ask_amount_before_fees)?
                 .checked_sub(Uint256::one())?,
         )
         .checked_sub(offer_asset_in_pool)?;
